@@ -164,5 +164,565 @@ theorem step_appv (hP : okProg S P true = true) {n : Nat} (ih : SoundAt S P n)
   | structV h1 _ _ => subst hτ; simp [isStructTy] at h1
   | _ => cases hτ
 
+theorem step_expr (hS : SigClosed S) (hP : okProg S P true = true) {n : Nat} (ih : SoundAt S P n)
+    {e : Expr} {ρ : Env} {w : World} {Γ : TyEnv} {K : Know} {θ : Subst} {Ψ : List Ty} {v : Val} {w' : World}
+    (hok : okE S P true Γ K e = true) (herr : errs S Γ e = []) (hρ : ET S P Ψ θ ρ Γ) (hK : KOk K ρ) (hw : WT S P Ψ w)
+    (hev : eval (n + 1) P ρ w e = .ok v w') : ∃ Ψ', Ext Ψ Ψ' ∧ WT S P Ψ' w' ∧ VT S P Ψ' v (substTy θ (getTy e)) := by
+  cases e with
+  | var x t =>
+    simp only [okE, Bool.or_eq_true] at hok
+    by_cases hloc : (lookupVar Γ x).isSome = true
+    · obtain ⟨rfl, _, t0, ht0, hv⟩ := eval_local hloc hρ hev
+      simp only [errs, ht0, check_nil] at herr
+      have := tyEq herr; subst this
+      exact ⟨Ψ, Ext.refl Ψ, hw, by simpa [getTy] using hv⟩
+    · have hfn : fnValOk P x t = true := by
+        rcases hok with h | h
+        · exact absurd h hloc
+        · exact h
+      have hnone : lookupVar Γ x = none := by
+        cases hx : lookupVar Γ x with
+        | none => rfl
+        | some _ => simp [hx] at hloc
+      have hlk : lookupEnv ρ x = none := by
+        have := ET_lookup hρ x
+        simpa [hnone] using this
+      rw [eval_var, hlk] at hev
+      obtain ⟨rfl, rfl⟩ := res_ok_inj hev
+      unfold fnValOk at hfn
+      cases hg : P.findFn x with
+      | none => simp [hg] at hfn
+      | some g =>
+        simp only [hg] at hfn
+        unfold instSubst at hfn
+        cases hm : matchTy (fnTy g) t [] with
+        | none => simp [hm] at hfn
+        | some σ =>
+          simp only [hm] at hfn
+          by_cases hinst : tyBeq (substTy σ (fnTy g)) t = true
+          · have hinst := tyEq hinst
+            refine ⟨Ψ, Ext.refl Ψ, hw, ?_⟩
+            simp only [getTy, Option.getD_none]
+            rw [← hinst, ← substTy_compS]
+            exact .fn _ hg
+          · simp [hinst] at hfn
+  | prim p =>
+    rw [eval_prim] at hev
+    obtain ⟨rfl, rfl⟩ := res_ok_inj hev
+    exact ⟨Ψ, Ext.refl Ψ, hw, by simp only [getTy, substTy_primTy]; exact VT_prim p (by simpa [okE] using hok)⟩
+  | tag i t => simp [okE] at hok
+  | constr c t args =>
+    simp only [okE, Bool.and_eq_true] at hok
+    simp only [errs, List.append_eq_nil_iff] at herr
+    obtain ⟨hargs, hfts⟩ := herr
+    rw [eval_constr] at hev
+    cases h1 : evalList n P ρ w args with
+    | fail f w1 => rw [h1] at hev; simp at hev
+    | ok vs w1 =>
+      rw [h1] at hev; simp only [Res.andThen_ok] at hev
+      obtain ⟨Ψ1, hx1, hw1, hvs⟩ := ih.list hok.2 hargs hρ hK hw h1
+      cases hf : fieldTys S c t with
+      | none => simp [hf] at hfts
+      | some fts =>
+        simp only [hf, check_nil] at hfts
+        have := tysBeq_eq.1 hfts
+        rw [← this] at hvs
+        have hf' := fieldTys_subst S hS θ c t fts hf
+        simp only [getTy]
+        cases c with
+        | enum tn vn idx =>
+          simp only [] at hev
+          obtain ⟨rfl, rfl⟩ := res_ok_inj hev
+          have hk : isEnumTy (substTy θ t) = true := isEnumTy_subst θ t (by simpa [ctorTyOk] using hok.1)
+          exact ⟨Ψ1, hx1, hw1, .enumV hk (enumFieldTys_of_fieldTys hf') hvs⟩
+        | struct tn =>
+          simp only [] at hev
+          obtain ⟨rfl, rfl⟩ := res_ok_inj hev
+          have hk : isStructTy (substTy θ t) = true := isStructTy_subst θ t (by simpa [ctorTyOk] using hok.1)
+          exact ⟨Ψ1, hx1, hw1, .structV hk hf' hvs⟩
+  | tuple t items =>
+    simp only [okE] at hok
+    simp only [errs, List.append_eq_nil_iff, checkEq_nil] at herr
+    rw [eval_tuple] at hev
+    cases h1 : evalList n P ρ w items with
+    | fail f w1 => rw [h1] at hev; simp at hev
+    | ok vs w1 =>
+      rw [h1] at hev; simp only [Res.andThen_ok] at hev
+      obtain ⟨rfl, rfl⟩ := res_ok_inj hev
+      obtain ⟨Ψ1, hx1, hw1, hvs⟩ := ih.list hok herr.1 hρ hK hw h1
+      exact ⟨Ψ1, hx1, hw1, by simp only [getTy, herr.2, substTy]; exact .tuple hvs⟩
+  | array t items =>
+    simp only [okE] at hok
+    simp only [errs, List.append_eq_nil_iff] at herr
+    obtain ⟨hitems, hty⟩ := herr
+    rw [eval_array] at hev
+    cases h1 : evalList n P ρ w items with
+    | fail f w1 => rw [h1] at hev; simp at hev
+    | ok vs w1 =>
+      rw [h1] at hev; simp only [Res.andThen_ok] at hev
+      obtain ⟨rfl, rfl⟩ := res_ok_inj hev
+      obtain ⟨Ψ1, hx1, hw1, hvs⟩ := ih.list hok hitems hρ hK hw h1
+      cases t with
+      | array nn e =>
+        simp only [List.append_eq_nil_iff, check_nil, beq_iff_eq] at hty
+        obtain ⟨hn, hall⟩ := hty
+        refine ⟨Ψ1, hx1, hw1, ?_⟩
+        simp only [getTy, substTy]
+        refine .array (VTs_all hvs ?_) ?_
+        · intro u hu
+          rw [substTys_map] at hu
+          obtain ⟨u0, hu0, rfl⟩ := List.mem_map.1 hu
+          rw [allTyEq_all hall u0 hu0]
+        · rw [VTs_length hvs, substTys_length, getTys_length]; exact hn.symm
+      | _ => simp at hty
+  | closure t ps body =>
+    simp only [okE] at hok
+    simp only [errs, List.append_eq_nil_iff, checkEq_nil] at herr
+    rw [eval_closure] at hev
+    obtain ⟨rfl, rfl⟩ := res_ok_inj hev
+    exact ⟨Ψ, Ext.refl Ψ, hw, by simp only [getTy, herr.2, substTy_func]; exact .closure hρ herr.1 hok⟩
+  | letE x v0 b =>
+    simp only [okE, Bool.and_eq_true] at hok
+    simp only [errs, List.append_eq_nil_iff] at herr
+    rw [eval_letE] at hev
+    cases h1 : eval n P ρ w v0 with
+    | fail f w1 => rw [h1] at hev; simp at hev
+    | ok vv w1 =>
+      rw [h1] at hev; simp only [Res.andThen_ok] at hev
+      obtain ⟨Ψ1, hx1, hw1, hvv⟩ := ih.expr hok.1 herr.1 hρ hK hw h1
+      obtain ⟨Ψ2, hx2, hw2, hv2⟩ := ih.expr hok.2 herr.2 (.cons hvv (hρ.mono hx1)) (KOk_drop hK x vv) hw1 hev
+      exact ⟨Ψ2, hx1.trans hx2, hw2, by simpa [getTy] using hv2⟩
+  | matchE t s arms d =>
+    have hok' : okE S P true Γ K s = true ∧ okA S P true Γ K (scrutLocal Γ s) arms = true ∧
+        (∀ d0, d = some d0 → okE S P true Γ K d0 = true) := by
+      cases d with
+      | none =>
+        simp only [okE, Bool.and_eq_true] at hok
+        exact ⟨hok.1.1, hok.1.2, fun d0 h => by cases h⟩
+      | some d1 =>
+        simp only [okE, Bool.and_eq_true] at hok
+        exact ⟨hok.1.1, hok.1.2, fun d0 h => by cases h; exact hok.2⟩
+    obtain ⟨hs, harms, hdok⟩ := hok'
+    rw [eval_matchE] at hev
+    have herr' : errs S Γ s = [] ∧ errsArms S Γ (getTy s) t arms = [] ∧
+        (∀ d0, d = some d0 → okE S P true Γ K d0 = true ∧ errs S Γ d0 = [] ∧ getTy d0 = t) := by
+      cases d with
+      | none =>
+        simp only [errs, List.append_eq_nil_iff] at herr
+        exact ⟨herr.1, herr.2, fun d0 h => by cases h⟩
+      | some d1 =>
+        simp only [errs, List.append_eq_nil_iff, checkEq_nil] at herr
+        refine ⟨herr.1.1.1, herr.1.1.2, ?_⟩
+        intro d0 h; cases h
+        exact ⟨hdok _ rfl, herr.1.2, herr.2⟩
+    obtain ⟨hse, hae, hde⟩ := herr'
+    cases h1 : eval n P ρ w s with
+    | fail f w1 => rw [h1] at hev; simp at hev
+    | ok sval w1 =>
+      rw [h1] at hev; simp only [Res.andThen_ok] at hev
+      obtain ⟨Ψ1, hx1, hw1, _⟩ := ih.expr hs hse hρ hK hw h1
+      have hsv : ∀ x, scrutLocal Γ s = some x → lookupEnv ρ x = some sval := by
+        intro x hx
+        cases s <;> simp [scrutLocal, scrutVar] at hx
+        obtain ⟨hl, rfl⟩ := hx
+        exact (eval_local hl hρ h1).2.1
+      obtain ⟨Ψ2, hx2, hw2, hv2⟩ := ih.arms harms hae hde (hρ.mono hx1) hK hw1 hsv hev
+      exact ⟨Ψ2, hx1.trans hx2, hw2, by simpa [getTy] using hv2⟩
+  | ite c t e2 =>
+    simp only [okE, Bool.and_eq_true] at hok
+    simp only [errs, List.append_eq_nil_iff, checkEq_nil] at herr
+    obtain ⟨⟨⟨⟨hc, ht⟩, he⟩, _⟩, hte⟩ := herr
+    rw [eval_ite] at hev
+    cases h1 : eval n P ρ w c with
+    | fail f w1 => rw [h1] at hev; simp at hev
+    | ok vc w1 =>
+      rw [h1] at hev; simp only [Res.andThen_ok] at hev
+      obtain ⟨Ψ1, hx1, hw1, _⟩ := ih.expr hok.1.1 hc hρ hK hw h1
+      simp only [getTy]
+      split at hev
+      · obtain ⟨Ψ2, hx2, hw2, hv2⟩ := ih.expr hok.1.2 ht (hρ.mono hx1) hK hw1 hev
+        exact ⟨Ψ2, hx1.trans hx2, hw2, hv2⟩
+      · obtain ⟨Ψ2, hx2, hw2, hv2⟩ := ih.expr hok.2 he (hρ.mono hx1) hK hw1 hev
+        exact ⟨Ψ2, hx1.trans hx2, hw2, by rw [hte]; exact hv2⟩
+      · cases hev
+  | «while» c b =>
+    have hok0 := hok
+    have herr0 := herr
+    simp only [okE, Bool.and_eq_true] at hok
+    simp only [errs, List.append_eq_nil_iff, checkEq_nil] at herr
+    rw [eval_while] at hev
+    cases h1 : eval n P ρ w c with
+    | fail f w1 => rw [h1] at hev; simp at hev
+    | ok vc w1 =>
+      rw [h1] at hev; simp only [Res.andThen_ok] at hev
+      obtain ⟨Ψ1, hx1, hw1, _⟩ := ih.expr hok.1 herr.1.1 hρ hK hw h1
+      split at hev
+      · cases h2 : eval n P ρ w1 b with
+        | fail f w2 => rw [h2] at hev; simp at hev
+        | ok vb w2 =>
+          rw [h2] at hev; simp only [Res.andThen_ok] at hev
+          obtain ⟨Ψ2, hx2, hw2, _⟩ := ih.expr hok.2 herr.1.2 (hρ.mono hx1) hK hw1 h2
+          obtain ⟨Ψ3, hx3, hw3, hv3⟩ := ih.expr hok0 herr0 (hρ.mono (hx1.trans hx2)) hK hw2 hev
+          exact ⟨Ψ3, (hx1.trans hx2).trans hx3, hw3, hv3⟩
+      · obtain ⟨rfl, rfl⟩ := res_ok_inj hev
+        exact ⟨Ψ1, hx1, hw1, by simp only [getTy, substTy]; exact .unit⟩
+      · cases hev
+  | go e0 => simp [okE] at hok
+  | cget c i t e0 =>
+    simp only [okE, Bool.and_eq_true] at hok
+    obtain ⟨⟨he0, hkind⟩, hflow⟩ := hok
+    simp only [errs, List.append_eq_nil_iff] at herr
+    obtain ⟨hee, hfts⟩ := herr
+    rw [eval_cget] at hev
+    cases h1 : eval n P ρ w e0 with
+    | fail f w1 => rw [h1] at hev; simp at hev
+    | ok ve w1 =>
+      rw [h1] at hev; simp only [Res.andThen_ok] at hev
+      obtain ⟨Ψ1, hx1, hw1, hve⟩ := ih.expr he0 hee hρ hK hw h1
+      cases hf : fieldTys S c (getTy e0) with
+      | none => simp [hf] at hfts
+      | some fts =>
+        simp only [hf] at hfts
+        cases hi : fts[i]? with
+        | none => simp [hi] at hfts
+        | some ft =>
+          simp only [hi, checkEq_nil] at hfts
+          subst hfts
+          have hf' := fieldTys_subst S hS θ c (getTy e0) fts hf
+          have hi' : (substTys θ fts)[i]? = some (substTy θ ft) := by rw [substTys_getElem?, hi]; rfl
+          have hnomc := fieldTys_nominal hf'
+          simp only [getTy]
+          generalize hτ : substTy θ (getTy e0) = τ at hve hf' hnomc
+          cases c with
+          | struct tn =>
+            have hstruct : isStructTy τ = true := by
+              rw [← hτ]; exact isStructTy_subst θ _ (by simpa [ctorTyOk] using hkind)
+            cases hve with
+            | @structV sn fs _ fts' h1' h2' h3' =>
+              simp only [] at hev
+              have : sn = tn := nominalArgs_name (fieldTys_nominal h2') hnomc
+              subst this
+              rw [hf'] at h2'
+              injection h2' with h2'; subst h2'
+              obtain ⟨fv, hfv, hty⟩ := VTs_get h3' i _ hi'
+              rw [hfv] at hev; simp only [] at hev
+              obtain ⟨rfl, rfl⟩ := res_ok_inj hev
+              exact ⟨Ψ1, hx1, hw1, hty⟩
+            | enumV h1' _ _ => exact (not_enum_and_struct h1' hstruct).elim
+            | _ => simp at hev
+          | enum tn vn ci =>
+            simp only [] at hflow
+            cases e0 with
+            | var x tx =>
+              simp only [beq_iff_eq] at hflow
+              obtain ⟨en, eargs, hlk⟩ := hK x ci hflow
+              have hloc : (lookupVar Γ x).isSome = true := by
+                cases hx : lookupVar Γ x with
+                | some _ => rfl
+                | none =>
+                  have := ET_lookup hρ x
+                  simp only [hx] at this
+                  rw [this] at hlk; cases hlk
+              have hl := (eval_local hloc hρ h1).2.1
+              rw [hlk] at hl
+              injection hl with hl; subst hl
+              cases hve with
+              | @enumV _ _ _ _ fts' h1' h2' h3' =>
+                simp only [] at hev
+                have : en = tn := nominalArgs_name (enumFieldTys_nominal h2') hnomc
+                subst this
+                rw [enumFieldTys_of_fieldTys hf'] at h2'
+                injection h2' with h2'; subst h2'
+                obtain ⟨fv, hfv, hty⟩ := VTs_get h3' i _ hi'
+                rw [hfv] at hev; simp only [] at hev
+                obtain ⟨rfl, rfl⟩ := res_ok_inj hev
+                exact ⟨Ψ1, hx1, hw1, hty⟩
+            | _ => simp at hflow
+  | un op t e0 =>
+    simp only [okE] at hok
+    simp only [errs, List.append_eq_nil_iff, check_nil] at herr
+    rw [eval_un] at hev
+    cases h1 : eval n P ρ w e0 with
+    | fail f w1 => rw [h1] at hev; simp at hev
+    | ok ve w1 =>
+      rw [h1] at hev; simp only [Res.andThen_ok] at hev
+      obtain ⟨Ψ1, hx1, hw1, hve⟩ := ih.expr hok herr.1 hρ hK hw h1
+      cases hu : unop op ve with
+      | error f => rw [hu] at hev; cases hev
+      | ok r =>
+        rw [hu] at hev; simp only [] at hev
+        obtain ⟨rfl, rfl⟩ := res_ok_inj hev
+        exact ⟨Ψ1, hx1, hw1, by simp only [getTy]; exact unop_sound (unopOk_subst θ op t _ herr.2) hve hu⟩
+  | bin op t l r =>
+    simp only [okE, Bool.and_eq_true] at hok
+    simp only [errs, List.append_eq_nil_iff, check_nil] at herr
+    obtain ⟨⟨hl, hr⟩, hop⟩ := herr
+    have hop' := binopOk_subst θ op t _ _ hop
+    rw [eval_bin] at hev
+    cases h1 : eval n P ρ w l with
+    | fail f w1 => rw [h1] at hev; simp at hev
+    | ok va w1 =>
+      rw [h1] at hev; simp only [Res.andThen_ok] at hev
+      obtain ⟨Ψ1, hx1, hw1, hva⟩ := ih.expr hok.1 hl hρ hK hw h1
+      simp only [getTy]
+      have hbool : ∀ (Ψ0 : List Ty) b, (op = .and ∨ op = .or) → VT S P Ψ0 (.bool b) (substTy θ t) := by
+        intro Ψ0 b hcase
+        rcases hcase with rfl | rfl <;> simp only [binopOk, Bool.and_eq_true] at hop' <;>
+          (have := tyEq hop'.2; rw [this]; exact .bool _)
+      by_cases c1 : scAnd op va = true
+      · rw [if_pos c1] at hev
+        obtain ⟨rfl, rfl⟩ := res_ok_inj hev
+        refine ⟨Ψ1, hx1, hw1, hbool _ _ (Or.inl ?_)⟩
+        unfold scAnd at c1; split at c1 <;> simp_all
+      · rw [if_neg c1] at hev
+        by_cases c2 : scOr op va = true
+        · rw [if_pos c2] at hev
+          obtain ⟨rfl, rfl⟩ := res_ok_inj hev
+          refine ⟨Ψ1, hx1, hw1, hbool _ _ (Or.inr ?_)⟩
+          unfold scOr at c2; split at c2 <;> simp_all
+        · rw [if_neg c2] at hev
+          by_cases c3 : logicalNonBool op va = true
+          · rw [if_pos c3] at hev; cases hev
+          · rw [if_neg c3] at hev
+            cases h2 : eval n P ρ w1 r with
+            | fail f w2 => rw [h2] at hev; simp at hev
+            | ok vb w2 =>
+              rw [h2] at hev; simp only [Res.andThen_ok] at hev
+              obtain ⟨Ψ2, hx2, hw2, hvb⟩ := ih.expr hok.2 hr (hρ.mono hx1) hK hw1 h2
+              cases hb : binop op va vb with
+              | error f => rw [hb] at hev; cases hev
+              | ok rv =>
+                rw [hb] at hev; simp only [] at hev
+                obtain ⟨rfl, rfl⟩ := res_ok_inj hev
+                exact ⟨Ψ2, hx1.trans hx2, hw2, binop_sound hop' (hva.mono hx2) hvb hb⟩
+  | call t f args =>
+    simp only [okE, Bool.and_eq_true, Bool.or_eq_true] at hok
+    obtain ⟨hargsok, hf⟩ := hok
+    simp only [errs, List.append_eq_nil_iff] at herr
+    rw [eval_call] at hev
+    simp only [getTy]
+    have hglobal : ∀ {fn : String} {tf : Ty} {m : Nat}, lookupVar Γ fn = none →
+        eval (m + 1) P ρ w (.var fn tf) = .ok (.fn fn) w := by
+      intro fn tf m hnone
+      rw [eval_var]
+      have := ET_lookup hρ fn
+      simp only [hnone] at this
+      rw [this]; rfl
+    rcases hf with (hdirect | hpoly) | ⟨hfok, hfty⟩
+    · cases f with
+      | var fn tf =>
+        simp only [Bool.and_eq_true, Option.isNone_iff_eq_none] at hdirect
+        obtain ⟨⟨hnone, hb⟩, htf⟩ := hdirect
+        have htf := tyEq htf
+        cases n with
+        | zero => rw [eval_zero] at hev; simp at hev
+        | succ m =>
+          rw [hglobal hnone] at hev
+          simp only [Res.andThen_ok] at hev
+          cases h2 : evalList (m + 1) P ρ w args with
+          | fail f w2 => rw [h2] at hev; simp at hev
+          | ok vs w2 =>
+            rw [h2] at hev; simp only [Res.andThen_ok] at hev
+            obtain ⟨Ψ1, hx1, hw1, hvs⟩ := ih.list hargsok herr.1.2 hρ hK hw h2
+            unfold builtinOk at hb
+            simp only [Bool.and_eq_true, Option.isNone_iff_eq_none] at hb
+            obtain ⟨hg, hb⟩ := hb
+            cases hbt : builtinTy fn with
+            | none =>
+              simp only [hbt, Bool.and_eq_true, beq_iff_eq] at hb
+              obtain ⟨rfl, hshape⟩ := hb
+              exfalso
+              rw [htf] at hshape
+              cases hga : getTys args with
+              | nil => simp [hga] at hshape
+              | cons t1 rest =>
+                cases rest with
+                | cons _ _ => cases t1 <;> simp [hga] at hshape
+                | nil =>
+                  rw [hga] at hvs
+                  simp only [substTys] at hvs
+                  obtain ⟨a, rfl, _⟩ := VTs_single hvs
+                  rw [apply_fn, hg] at hev
+                  simp [builtin] at hev
+            | some bt =>
+              simp only [hbt] at hb
+              have := tyEq hb
+              subst this
+              rw [apply_fn, hg] at hev
+              simp only [] at hev
+              rw [htf] at hbt
+              have hclosed : substTys θ (getTys args) = getTys args ∧ substTy θ t = t := by
+                unfold builtinTy at hbt
+                split at hbt <;> simp only [Option.some.injEq, Ty.func.injEq, reduceCtorEq] at hbt <;>
+                  (obtain ⟨h1, h2⟩ := hbt; rw [← h1, ← h2]; simp [substTys, substTy])
+              rw [hclosed.1] at hvs
+              rw [hclosed.2]
+              have := builtin_sound hbt hvs hev
+              exact ⟨Ψ1, hx1, hw1.of_store this.2, this.1⟩
+      | _ => simp at hdirect
+    · cases f with
+      | var fn tf =>
+        simp only [Bool.and_eq_true, Option.isNone_iff_eq_none, Bool.or_eq_true, Bool.true_and] at hpoly
+        obtain ⟨⟨hnone, hg⟩, hp⟩ := hpoly
+        cases n with
+        | zero => rw [eval_zero] at hev; simp at hev
+        | succ m =>
+          rw [hglobal hnone] at hev
+          simp only [Res.andThen_ok] at hev
+          cases h2 : evalList (m + 1) P ρ w args with
+          | fail f w2 => rw [h2] at hev; simp at hev
+          | ok vs w2 =>
+            rw [h2] at hev; simp only [Res.andThen_ok] at hev
+            obtain ⟨Ψ1, hx1, hw1, hvs⟩ := ih.list hargsok herr.1.2 hρ hK hw h2
+            rw [apply_fn, hg] at hev
+            simp only [] at hev
+            rcases hp with hp | hp
+            · have := poly_sound hp hvs hev
+              exact ⟨Ψ1, hx1, hw1.of_store this.2, this.1⟩
+            · obtain ⟨Ψ2, hx2, hw2, hv2⟩ := ref_sound hp hw1 hvs hev
+              exact ⟨Ψ2, hx1.trans hx2, hw2, hv2⟩
+      | _ => simp at hpoly
+    · have hfty := tyEq hfty
+      cases h1 : eval n P ρ w f with
+      | fail f w1 => rw [h1] at hev; simp at hev
+      | ok fv w1 =>
+        rw [h1] at hev; simp only [Res.andThen_ok] at hev
+        obtain ⟨Ψ1, hx1, hw1, hfv⟩ := ih.expr hfok herr.1.1 hρ hK hw h1
+        rw [hfty, substTy_func] at hfv
+        cases h2 : evalList n P ρ w1 args with
+        | fail f w2 => rw [h2] at hev; simp at hev
+        | ok vs w2 =>
+          rw [h2] at hev; simp only [Res.andThen_ok] at hev
+          obtain ⟨Ψ2, hx2, hw2, hvs⟩ := ih.list hargsok herr.1.2 (hρ.mono hx1) hK hw1 h2
+          obtain ⟨Ψ3, hx3, hw3, hv3⟩ := ih.appv (hfv.mono hx2) hvs hw2 hev
+          exact ⟨Ψ3, (hx1.trans hx2).trans hx3, hw3, hv3⟩
+  | toDyn tr ft t e0 => simp [okE] at hok
+  | dynCall tr m t recv args => simp [okE] at hok
+  | traitCall tr m t recv args =>
+    simp only [okE, Bool.and_eq_true, Bool.or_eq_true] at hok
+    obtain ⟨⟨hrecv, hargsok⟩, hdisp⟩ := hok
+    simp only [errs, List.append_eq_nil_iff] at herr
+    rw [eval_traitCall] at hev
+    cases h1 : eval n P ρ w recv with
+    | fail f w1 => rw [h1] at hev; simp at hev
+    | ok rv w1 =>
+      rw [h1] at hev; simp only [Res.andThen_ok] at hev
+      obtain ⟨Ψ1, hx1, hw1, hrv0⟩ := ih.expr hrecv herr.1.1 hρ hK hw h1
+      cases h2 : evalList n P ρ w1 args with
+      | fail f w2 => rw [h2] at hev; simp at hev
+      | ok vs w2 =>
+        rw [h2] at hev; simp only [Res.andThen_ok] at hev
+        obtain ⟨Ψ2, hx2, hw2, hvs⟩ := ih.list hargsok herr.1.2 (hρ.mono hx1) hK hw1 h2
+        have hrv := hrv0.mono hx2
+        have fin : ∀ {τ : Ty}, (∃ Ψ', Ext Ψ2 Ψ' ∧ WT S P Ψ' w' ∧ VT S P Ψ' v τ) →
+            ∃ Ψ', Ext Ψ Ψ' ∧ WT S P Ψ' w' ∧ VT S P Ψ' v τ := by
+          rintro τ ⟨Ψ3, hx3, hw3, hv3⟩
+          exact ⟨Ψ3, (hx1.trans hx2).trans hx3, hw3, hv3⟩
+        rcases hdisp with ⟨hconc, hdisp⟩ | himp
+        · rw [substTy_concrete θ hconc] at hrv
+          rw [valKey_of_VT hconc hrv] at hev
+          unfold dispatchOk at hdisp
+          cases hrow : P.impls.find? (fun i => i.1 == tr && i.2.1 == tyKey (getTy recv) && i.2.2.1 == m) with
+          | none => simp [hrow] at hdisp
+          | some row =>
+            simp only [hrow] at hdisp hev
+            cases hg : P.findFn row.2.2.2 with
+            | none => simp [hg] at hdisp
+            | some g =>
+              simp only [hg] at hdisp
+              have hsig := tyEq hdisp
+              unfold fnTy at hsig
+              injection hsig with hps hret
+              have key := ih.app (θ := θ) hg (by
+                rw [hps]; simp only [substTys, substTy_concrete θ hconc]
+                exact .cons hrv hvs) hw2 hev
+              rw [hret] at key
+              exact fin (by simpa [getTy] using key)
+        · unfold implsOk at himp
+          simp only [Bool.and_eq_true, List.all_eq_true] at himp
+          obtain ⟨hnames, hrows⟩ := himp
+          cases hrow : P.impls.find? (fun i => i.1 == tr && i.2.1 == valKey rv && i.2.2.1 == m) with
+          | none => rw [hrow] at hev; cases hev
+          | some row =>
+            simp only [hrow] at hev
+            have hmem := List.mem_of_find?_eq_some hrow
+            have hp := List.find?_some hrow
+            simp only [Bool.and_eq_true, beq_iff_eq] at hp
+            have hr := hrows row hmem
+            unfold rowOk at hr
+            cases hg : P.findFn row.2.2.2 with
+            | none => simp [hg] at hr
+            | some g =>
+              simp only [hg] at hr
+              cases hps : g.params with
+              | nil => simp [hps] at hr
+              | cons p rest =>
+                simp only [hps, Bool.and_eq_true, beq_iff_eq] at hr
+                obtain ⟨⟨hkeyable, hkey⟩, hsig⟩ := hr
+                have hτ : substTy θ (getTy recv) = p.2 :=
+                  key_determines hnames hrv hkeyable (by rw [hkey, hp.1.2])
+                have herr2 := herr.2
+                cases hmt : methodTy S tr m (getTy recv) with
+                | none => simp [hmt] at herr2
+                | some mt =>
+                  simp only [hmt, checkEq_nil] at herr2
+                  have hm2 := methodTy_subst S hS θ tr m _ _ hmt
+                  rw [hτ] at hm2
+                  rw [hp.1.1, hp.2, hm2] at hsig
+                  simp only [] at hsig
+                  have hfn := tyEq hsig
+                  rw [herr2] at hfn
+                  unfold fnTy at hfn
+                  rw [substTy_func] at hfn
+                  injection hfn with hps' hret
+                  have key := ih.app (θ := []) hg (by
+                    rw [substTys_nil, ← hps']; simp only [substTys]
+                    exact .cons hrv hvs) hw2 hev
+                  rw [substTy_nil, ← hret] at key
+                  exact fin (by simpa [getTy] using key)
+  | proj i t e0 =>
+    simp only [okE] at hok
+    simp only [errs, List.append_eq_nil_iff] at herr
+    obtain ⟨hee, hpt⟩ := herr
+    rw [eval_proj] at hev
+    cases h1 : eval n P ρ w e0 with
+    | fail f w1 => rw [h1] at hev; simp at hev
+    | ok ve w1 =>
+      rw [h1] at hev; simp only [Res.andThen_ok] at hev
+      obtain ⟨Ψ1, hx1, hw1, hve⟩ := ih.expr hok hee hρ hK hw h1
+      cases hg : getTy e0 <;> simp only [hg] at hpt <;> try (simp at hpt)
+      rename_i ts
+      cases hi : ts[i]? with
+      | none => simp [hi] at hpt
+      | some ft =>
+        simp only [hi, checkEq_nil] at hpt
+        subst hpt
+        rw [hg] at hve
+        simp only [substTy] at hve
+        obtain ⟨vs, rfl, hvs⟩ := VT_tuple hve
+        have hi' : (substTys θ ts)[i]? = some (substTy θ ft) := by rw [substTys_getElem?, hi]; rfl
+        obtain ⟨fv, hfv, hty⟩ := VTs_get hvs i _ hi'
+        simp only [] at hev
+        rw [hfv] at hev; simp only [] at hev
+        obtain ⟨rfl, rfl⟩ := res_ok_inj hev
+        exact ⟨Ψ1, hx1, hw1, by simpa [getTy] using hty⟩
+
+/-- **type soundness of `Sem` with references**, for every amount of fuel -/
+theorem sound_all (hS : SigClosed S) (hP : okProg S P true = true) (n : Nat) : SoundAt S P n := by
+  induction n with
+  | zero =>
+    refine ⟨?_, ?_, ?_, ?_, ?_⟩
+    · intro e ρ w Γ K θ Ψ v w' _ _ _ _ _ h; rw [eval_zero] at h; cases h
+    · intro es ρ w Γ K θ Ψ vs w' _ _ _ _ _ h; rw [evalList_zero] at h; cases h
+    · intro arms d ρ w Γ K θ Ψ sv st rt sval v w' _ _ _ _ _ _ _ h; rw [evalArms_zero] at h; cases h
+    · intro name g θ Ψ args w v w' _ _ _ h; rw [apply_zero] at h; cases h
+    · intro fv as r Ψ args w v w' _ _ _ h; rw [apply_zero] at h; cases h
+  | succ n ih =>
+    exact ⟨fun h1 h2 h3 h4 h5 h6 => step_expr hS hP ih h1 h2 h3 h4 h5 h6,
+           fun h1 h2 h3 h4 h5 h6 => step_list ih h1 h2 h3 h4 h5 h6,
+           fun h1 h2 h3 h4 h5 h6 h7 h8 => step_arms ih h1 h2 h3 h4 h5 h6 h7 h8,
+           fun h1 h2 h3 h4 => step_app hP ih h1 h2 h3 h4,
+           fun h1 h2 h3 h4 => step_appv hP ih h1 h2 h3 h4⟩
+
 end
 end Goml.ValTyR
